@@ -34,6 +34,10 @@ def run(ctx):
     ctx.sample({"case": cs[40], "event_bytes": events[40]["b"]})
     ctx.sample({"case": cs[-1]["ty"], "value": cs[-1]["val"], "bytes": events[-1]["b"]})
     ctx.validate("Trace_Codec", events, header={"schema": msgev.world()["schema"]}, shard=1500, weight=lambda e: 1 + len(e["b"]) // 40)
+    # values reached through histories (assignments, in-place changes of containers and sub-messages, parses, copies; bytes()
+    # called in between): after every call the bytes must spec-decode to the value the object then has
+    from .. import hist
+    hist.run_histories(ctx, ["TRep", "TMapV", "TMapK", "TMix", "TOne", "TOpt", "TImpl", "Node"], 400 if quick else 12000, 9, "inplace")
     ctx.notes["cases_by_type"] = {t: sum(1 for c in cs if c["ty"] == t) for t in msgev.world()["schema"]["types"]}
 
 
